@@ -257,6 +257,7 @@ def run(ctx):
     other_modules(ctx)
     integer_typed_params(ctx)
     numeric_policies(ctx)
+    inexact_complement_coding(ctx)
 
 
 # ---------------------------------------------------------------- geometry accessors at the edge of their argument range
@@ -796,3 +797,273 @@ def numeric_policies(ctx):
                 cov.hit(f"policy:{pol}:{cls}")
                 cov.hit(f"policy:{pol}:{kind}")
             cov.case(("policy", cls, spec, x0.tolist(), w0.tolist()), True)
+
+
+# ---------------------------------------------------------------- Fuzzy ART match on samples that are complement coded only up to rounding / tolerance
+
+
+def q_min_sum(x, w):
+    """|x ^ w| over Q, on the very floats handed to the kernel"""
+    return sum((min(Fraction(float(a)), Fraction(float(b))) for a, b in zip(x, w)), Fraction(0))
+
+
+def sums_without_rounding(x, w):
+    """every component of x ^ w is a multiple of 2^-30 in [0, 1]: whatever the order of summation, every partial sum
+    of at most 2^20 such numbers is a double, so a floating-point |x ^ w| involves no rounding at all"""
+    return all(Fraction(min(float(a), float(b))).denominator <= 2 ** 30 for a, b in zip(x, w))
+
+
+def is_double(q):
+    try:
+        return Fraction(float(q)) == q
+    except OverflowError:
+        return False
+
+
+def grid_box(r, d, g):
+    lo = [Fraction(r.randint(0, g), g) for _ in range(d)]
+    hi = [min(Fraction(1), l + Fraction(r.choice([0, 1, 2, 3, 4, r.randint(0, g)]), g)) for l in lo]
+    return lo, hi
+
+
+def box_weight(lo, hi):
+    return np.array([float(a) for a in lo] + [float(1 - b) for b in hi])
+
+
+def inexact_sample(r, lo, hi, kind):
+    """a sample inside the box [lo, hi] that validate_data accepts although its 2d entries do not add up to d:
+    'cc-float'  -- (u, 1 - u) with u an arbitrary double: 1 - u is rounded, the row sum is d up to a few ulps;
+    'cc-above' / 'cc-below' -- the second half moved by up to 0.008 in total (validate_data tolerates 0.01), still
+    inside the box, i.e. x ^ w = w"""
+    d = len(lo)
+    u = np.array([min(max(float(l) + float(h - l) * r.random(), float(l)), float(h)) for l, h in zip(lo, hi)])
+    c = 1.0 - u
+    if kind != "cc-float":
+        e = np.array([r.random() for _ in range(d)])
+        e = e / e.sum() * 0.008 * r.random()
+        if kind == "cc-above":
+            c = np.minimum(1.0, c + e)
+        else:
+            c = np.maximum(np.array([float(1 - h) for h in hi]), c - e)
+    return np.concatenate([u, c])
+
+
+def outside_sample(r, d, kind):
+    u = np.array([r.random() for _ in range(d)])
+    c = 1.0 - u
+    if kind != "cc-float":
+        e = np.array([r.random() for _ in range(d)])
+        e = e / e.sum() * 0.008 * r.random()
+        c = np.clip(c + e if kind == "cc-above" else c - e, 0.0, 1.0)
+    return np.concatenate([u, c])
+
+
+GE_MODES = ("MT+", "MT-", "MT1")
+
+
+def inexact_complement_coding(ctx):
+    """Oracle (implementation alone, exact rational arithmetic on the float inputs): M = |x ^ w| / d with d the ORIGINAL
+    dimension -- not |x|, which equals d only for an exactly complement-coded row.  validate_data accepts rows whose two
+    halves add up to 1 within 0.01, and even (u, 1 - u) computed in floating point sums to d only up to a few ulps for
+    d >= 2.  Situation: a category box with corners on a dyadic grid (learnt from its two corners, or an arbitrary
+    well-formed weight), rho equal to the representable number |w| / d, samples INSIDE the box (x ^ w = w, so the
+    floating-point |x ^ w| involves no rounding and M is |w| / d rounded once -- here not rounded at all):
+      * match_criterion returns exactly that double; with rho = M the operator >= accepts and > rejects, with rho one
+        ulp above / below every mode rejects / accepts; arguments and model are left alone;
+      * whole partial_fit histories under a >= mode absorb every such sample into its own box (no new category, weights
+        bitwise unchanged, beta = 1); under a > mode the tie is rejected and the sample founds a new category;
+      * samples outside the box (rounding may occur in the sum): M within 1e-12 of the exact value, binary test as the
+        exact comparison says whenever the exact value is not within 1e-9 of rho."""
+    from copy import deepcopy
+    cov = ctx.cov
+    for i in range(ctx.scale(48, 1200)):
+        r = gen.rng_for(ctx.seed, "C03-icc", i)
+        d = [2, 3, 4, 3, 2, 4, 5, 1][i % 8]
+        g = r.choice([4, 8, 16, 16, 32])
+        for _ in range(200):
+            lo, hi = grid_box(r, d, g)
+            S = sum(lo, Fraction(0)) + sum((1 - h for h in hi), Fraction(0))
+            if is_double(S / d):
+                break
+        else:
+            cov.hit("icc:no-representable-tie-found")
+            continue
+        tie = S / d
+        rho = float(tie)
+        alpha = r.choice([2.0 ** -10, 0.25, 1e-3] + ([0.0] if S > 0 else []))
+        spec = {"cls": "FuzzyART", "rho": rho, "alpha": alpha, "beta": 1.0}
+        boxes = [(lo, hi)]
+        # a second, disjoint box of the same size (a translate), when there is room for one
+        if r.random() < 0.5:
+            for _ in range(30):
+                lo2 = [Fraction(r.randint(0, int((1 - (h - l)) * g)), g) for l, h in zip(lo, hi)]
+                hi2 = [a + (h - l) for a, l, h in zip(lo2, lo, hi)]
+                if any(a > h or b < l for a, b, l, h in zip(lo2, hi2, lo, hi)):
+                    boxes.append((lo2, hi2))
+                    break
+        corners = np.array([[float(v) for v in pt] + [float(1 - v) for v in pt] for bx in boxes for pt in bx])
+        Wwant = [box_weight(*bx) for bx in boxes]
+        rep0 = {"class": "FuzzyART", "spec": spec, "d": d, "corners": corners, "boxes": [[[float(v) for v in lo_], [float(v) for v in hi_]] for lo_, hi_ in boxes],
+                "rho_is": f"|w|/d = {S}/{d} = {tie}"}
+        m = make(spec)
+        mode_fit = r.choice(GE_MODES)
+        try:
+            with quiet():
+                m.fit(corners, match_tracking=mode_fit)
+        except Exception as e:
+            ctx.issue("violation", f"FuzzyART.fit:box-from-two-corners:{exc_enum(e)}", f"fit on the corners of {len(boxes)} grid boxes raised {e!r}", rep0)
+            continue
+        if len(m.W) != len(boxes) or not all(np.array_equal(np.asarray(a, dtype=float), b) for a, b in zip(m.W, Wwant)) \
+                or list(m.labels_) != [k for k in range(len(boxes)) for _ in (0, 1)]:
+            # second corner: x ^ w = (lo, 1 - hi), M = |w|/d = rho exactly (all numbers on the grid), >= accepts, beta = 1
+            ctx.issue("violation", f"FuzzyART.fit:box-from-two-corners:{mode_fit}",
+                      f"fit(corners, match_tracking={mode_fit!r}) with rho = |box|/d = {rho!r} gave weights {[np.asarray(w_).tolist() for w_ in m.W]} labels "
+                      f"{np.asarray(m.labels_).tolist()}; the published rules give one box per corner pair: {[w_.tolist() for w_ in Wwant]}",
+                      dict(rep0, mode=mode_fit))
+            continue
+        cov.hit(f"icc:boxes={len(boxes)}")
+        cov.hit(f"icc:d={d}")
+        if rho in (0.0, 1.0):
+            cov.hit(f"icc:rho={rho}")
+        p = dict(m.params)
+        # ---- kernel level: samples inside a box of the trained model / inside an arbitrary well-formed box
+        samples, owner = [], []
+        n_in = 10
+        for j in range(n_in):
+            b = r.randrange(len(boxes))
+            kind = ["cc-float", "cc-float", "cc-above", "cc-below"][j % 4]
+            x = inexact_sample(r, *boxes[b], kind)
+            if kind == "cc-float" and float(np.sum(x)) == float(d):
+                # prefer the rows whose floating-point sum is not d (about one in seven for d = 3)
+                for _ in range(12):
+                    x2 = inexact_sample(r, *boxes[b], kind)
+                    if float(np.sum(x2)) != float(d):
+                        x = x2
+                        break
+            samples.append((kind, x))
+            owner.append(b)
+        Xin = np.array([x for _, x in samples])
+        try:
+            with quiet():
+                deepcopy(m).validate_data(Xin)
+        except AssertionError as e:
+            ctx.issue("diff", "icc:generator:validate_data-rejects", f"generated rows rejected by validate_data: {e!r}", dict(rep0, X=Xin))
+            continue
+        arb_lo, arb_hi = None, None
+        for _ in range(200):
+            arb_lo, arb_hi = grid_box(r, d, g)
+            Sa = sum(arb_lo, Fraction(0)) + sum((1 - h for h in arb_hi), Fraction(0))
+            if is_double(Sa / d):
+                break
+        cases = [("reached", Wwant[b], float(tie), kind, x) for (kind, x), b in zip(samples, owner)]
+        if is_double(Sa / d):
+            wa = box_weight(arb_lo, arb_hi)
+            for kind in ("cc-float", "cc-above", "cc-below"):
+                cases.append(("arbitrary", wa, float(Sa / d), kind, inexact_sample(r, arb_lo, arb_hi, kind)))
+        snap0 = full_snapshot(m)
+        for origin, w, rho_w, kind, x in cases:
+            x0, w0 = x.copy(), w.copy()
+            Mq = q_min_sum(x, w) / d
+            exact_sum = sums_without_rounding(x, w)
+            row = float(np.sum(x))
+            sit = "row-sum-equals-d" if row == float(d) else ("row-sum-off-by-ulps" if abs(row - d) < 1e-9 else "row-sum-off-within-tolerance")
+            rep = dict(rep0, x=x0, w=w0, weight=origin, sample=kind, row_sum=row, situation=sit, exact_match_value=str(Mq))
+            try:
+                with quiet():
+                    M, _ = m.match_criterion(x, w, params=dict(p, rho=rho_w))
+            except Exception as e:
+                ctx.issue("violation", f"FuzzyART.match_criterion:inexact-complement-coding:{exc_enum(e)}", f"raised {e!r}", rep)
+                continue
+            M = float(M)
+            if not (exact_sum and Mq == Fraction(rho_w)):
+                ctx.issue("diff", "icc:generator:sample-not-inside-box", f"x ^ w != w for {x0.tolist()} / {w0.tolist()}", rep)
+                continue
+            cov.hit(f"icc:kernel:{sit}")
+            cov.hit(f"icc:kernel:{kind}:{origin}")
+            cov.case(("icc", x0.tolist(), w0.tolist()), row != float(d))
+            if M != float(Mq):
+                ctx.issue("violation", f"FuzzyART.match_criterion:inexact-complement-coding:{sit}:differs-from-|x^w|/d",
+                          f"sample x = {x0.tolist()} (accepted by validate_data; its entries sum to {row!r}, d = {d}) lies inside the box "
+                          f"w = {w0.tolist()}, so x ^ w = w and |x ^ w| / d = {Mq} = {float(Mq)!r} without any rounding; match_criterion returned {M!r}",
+                          dict(rep, returned=M, expected=float(Mq)))
+            for rho_t, rel in ((rho_w, "tie"), (float(np.nextafter(rho_w, np.inf)), "rho-one-ulp-above"), (float(np.nextafter(rho_w, -np.inf)), "rho-one-ulp-below")):
+                if not 0.0 <= rho_t <= 1.0:
+                    continue
+                for mode in MODES:
+                    op = m._match_tracking_operator(mode)
+                    with quiet():
+                        mb, _ = m.match_criterion_bin(x, w, params=dict(p, rho=rho_t), cache=None, op=op)
+                    want = (Mq >= Fraction(rho_t)) if mode in GE_MODES else (Mq > Fraction(rho_t))
+                    if bool(mb) != want:
+                        ctx.issue("violation", f"FuzzyART.match_criterion_bin:inexact-complement-coding:{rel}:{mode}",
+                                  f"x = {x0.tolist()} (row sum {row!r}) inside the box w = {w0.tolist()}: |x ^ w| / d = {Mq} exactly, rho = {rho_t!r} ({rel}), "
+                                  f"mode {mode} (operator {'>=' if mode in GE_MODES else '>'}): the rule gives {want}, match_criterion_bin returned {bool(mb)}",
+                                  dict(rep, rho=rho_t, mode=mode, returned=bool(mb), expected=want))
+                cov.hit(f"icc:bin:{rel}")
+            if not (np.array_equal(x, x0) and np.array_equal(w, w0)):
+                ctx.issue("violation", "FuzzyART.kernel:mutates-arguments", "x or w changed by match_criterion / match_criterion_bin", rep)
+        # ---- samples anywhere (the sum may be rounded): value to 1e-12, decision wherever rounding cannot matter
+        for j in range(6):
+            kind = ["cc-float", "cc-above", "cc-below"][j % 3]
+            x = outside_sample(r, d, kind)
+            w = Wwant[r.randrange(len(Wwant))]
+            Mq = q_min_sum(x, w) / d
+            row = float(np.sum(x))
+            sit = "row-sum-equals-d" if row == float(d) else ("row-sum-off-by-ulps" if abs(row - d) < 1e-9 else "row-sum-off-within-tolerance")
+            rep = dict(rep0, x=x.copy(), w=w.copy(), sample=kind, row_sum=row, situation=sit, exact_match_value=str(Mq))
+            with quiet():
+                M = float(m.match_criterion(x, w, params=p)[0])
+            if not close(M, Mq):
+                ctx.issue("violation", f"FuzzyART.match_criterion:inexact-complement-coding:{sit}:differs-from-|x^w|/d",
+                          f"x = {x.tolist()} (row sum {float(np.sum(x))!r}, d = {d}), w = {w.tolist()}: |x ^ w| / d = {float(Mq)!r}, match_criterion returned {M!r}",
+                          dict(rep, returned=M, expected=float(Mq)))
+            if abs(Mq - tie) > Fraction(1, 10 ** 9):
+                for mode in MODES:
+                    with quiet():
+                        mb, _ = m.match_criterion_bin(x, w, params=p, cache=None, op=m._match_tracking_operator(mode))
+                    if bool(mb) != (Mq > tie):
+                        ctx.issue("violation", f"FuzzyART.match_criterion_bin:inexact-complement-coding:away-from-tie:{mode}",
+                                  f"|x ^ w| / d = {float(Mq)!r}, rho = {rho!r}: the rule gives {Mq > tie}, returned {bool(mb)}", dict(rep, mode=mode))
+            cov.hit(f"icc:anywhere:{kind}")
+        if not eq_snap(full_snapshot(m), snap0):
+            ctx.issue("violation", "FuzzyART.kernel:mutates-model", "model state changed by match_criterion / match_criterion_bin", rep0)
+        # ---- whole histories
+        mode = r.choice(GE_MODES)
+        parts = gen.compositions(r, len(Xin))
+        h = deepcopy(m)
+        rep = dict(rep0, X=Xin, owner=owner, batches=parts, mode=mode, sample_kinds=[k for k, _ in samples])
+        try:
+            with quiet():
+                for B in gen.split(Xin, parts):
+                    h.partial_fit(B, match_tracking=mode)
+        except Exception as e:
+            ctx.issue("violation", f"FuzzyART.partial_fit:inexact-complement-coding:{exc_enum(e)}", f"partial_fit raised {e!r}", rep)
+        else:
+            got = np.asarray(h.labels_)[len(corners):].tolist()
+            if len(h.W) != len(boxes) or got != owner or not all(np.array_equal(np.asarray(a, dtype=float), b) for a, b in zip(h.W, Wwant)):
+                bad = [k for k, (a, b) in enumerate(zip(got, owner)) if a != b]
+                ctx.issue("violation", f"FuzzyART.partial_fit:interior-sample-on-exact-tie-not-absorbed:{mode}",
+                          f"{len(boxes)} box(es) {[w_.tolist() for w_ in Wwant]}, rho = |w|/d = {rho!r}, mode {mode} (>=): every presented sample lies inside one box "
+                          f"(x ^ w = w, M = rho exactly) and must be absorbed by it; labels {got} expected {owner}, {len(h.W)} categories afterwards"
+                          + (f"; first sample not absorbed: {Xin[bad[0]].tolist()} (row sum {float(np.sum(Xin[bad[0]]))!r})" if bad else ""),
+                          dict(rep, labels=got, n_categories=len(h.W)))
+            cov.hit(f"icc:history:{mode}:batches={'one' if len(parts) == 1 else 'several'}")
+            cov.traces += 1
+        # strict operator: the exact tie is not a match, the sample founds a new category
+        mode = r.choice([m_ for m_ in MODES if m_ not in GE_MODES])
+        for k in r.sample(range(len(Xin)), 3):
+            h = deepcopy(m)
+            rep = dict(rep0, X=Xin[k:k + 1], owner=[owner[k]], mode=mode, sample_kinds=[samples[k][0]])
+            try:
+                with quiet():
+                    h.partial_fit(Xin[k:k + 1], match_tracking=mode)
+            except Exception as e:
+                ctx.issue("violation", f"FuzzyART.partial_fit:inexact-complement-coding:{exc_enum(e)}", f"partial_fit raised {e!r}", rep)
+                continue
+            if int(h.labels_[-1]) != len(boxes) or len(h.W) != len(boxes) + 1 or not np.array_equal(np.asarray(h.W[-1], dtype=float), Xin[k]):
+                ctx.issue("violation", f"FuzzyART.partial_fit:exact-tie-accepted-under-strict-operator:{mode}",
+                          f"x = {Xin[k].tolist()} (row sum {float(np.sum(Xin[k]))!r}) inside the box {Wwant[owner[k]].tolist()}: M = |w|/d = rho = {rho!r} exactly, mode {mode} tests "
+                          f"M > rho, so no existing category matches and a new one is founded; got label {int(h.labels_[-1])}, {len(h.W)} categories",
+                          dict(rep, label=int(h.labels_[-1]), n_categories=len(h.W)))
+            cov.hit(f"icc:history:{mode}:tie-rejected")
+            cov.traces += 1
